@@ -452,6 +452,21 @@ func c18Sequential(c *core.Ctx) {
 			return
 		}
 		wantOwn, wantPs := mon.Dump(own1), mon.Dump(ps1)
+		// the spare capacity of a decoded list (not of octet slices, which alias the datagram)
+		// belongs to that list alone: writing into it, as an append by the caller does, changes
+		// nothing the caller can see
+		spare := mon.ScribbleSpare(own1)
+		for _, p := range ps1 {
+			spare += mon.ScribbleSpare(p)
+		}
+		if spare > 0 {
+			cs.Count("spare-capacity-scalars-written/" + k.String())
+			if a, b := mon.Dump(own1), mon.Dump(ps1); a != wantOwn || b != wantPs {
+				cs.Fail("history/decoded-lists-share-spare-capacity/"+k.String(), core.W{"type": k.String(), "datagram_hex": mon.Hex(in, 200), "scalars_written_beyond_len": spare,
+					"own_before": wantOwn, "own_after": a, "datagram_before": wantPs, "datagram_after": b})
+				return
+			}
+		}
 		var m1 []byte
 		var merr error
 		core.Guard(func() { m1, merr = v.Marshal() })
